@@ -126,4 +126,18 @@ def stragglerPrecommit (hasLastCommit : Bool) : Except Fault Reply :=
 def stragglerPrecommitUnguarded (hasLastCommit : Bool) : Except Fault Reply :=
   if !hasLastCommit then .error (.panic "types.(*VoteSet).AddVote") else .ok .accepted
 
+/-! ### fault-validator evidence: the keys it names -/
+
+/-- `checkFaultValEvidence` / `VerifyFaultValEvidence` after the round/height test, as the code is now (fix 60a9b13):
+evidence without a proposer key, or without the fault validator's key for a commit round above 0, is rejected -/
+def faultEvidenceKeys (commitRound : Int) (proposerNil faultValNil : Bool) : Except Fault Reply :=
+  if proposerNil ∨ (commitRound ≠ 0 ∧ faultValNil) then .ok (.rejected "evidence without keys") else .ok .accepted
+
+/-- before the fix: `ev.Proposer.Address()` / `ev.FaultVal.Address()` on the nil interface value -/
+def faultEvidenceKeysUnguarded (commitRound : Int) (proposerNil faultValNil : Bool) : Except Fault Reply :=
+  if commitRound = 0 then
+    (if !faultValNil then .ok (.rejected "FaultVal not nil when round 0")
+     else if proposerNil then .error (.panic "consensus.(*ConsensusState).checkFaultValEvidence") else .ok .accepted)
+  else if faultValNil ∨ proposerNil then .error (.panic "consensus.(*ConsensusState).checkFaultValEvidence") else .ok .accepted
+
 end Model.PeerInput
